@@ -670,6 +670,11 @@ func (w *wbuild) checkBuild(res *InvResult, req BuildReq, opts InvOpts, cm *cach
 				report("C18", "target-started-after-interrupt", "start-after-handler", fmt.Sprintf("%s started at step %d although the interrupt was delivered at step %d and the signal handler had finished at step %d", e.Label, e.Start, fs.sigStep, fs.sigObserved))
 			}
 		}
+		for _, e := range res.Events {
+			if e.Kind == "cmd" && e.StartMS > fs.sigSimMS {
+				report("C18", "target-started-after-interrupt", "sim-time", fmt.Sprintf("SIGINT was delivered at simulated t=%dms, but the command of %s was started at t=%dms", fs.sigSimMS, e.Label, e.StartMS))
+			}
+		}
 		if dt := res.EndSimMS - fs.sigSimMS; dt > 10000 {
 			report("C18", "slow-exit-after-interrupt", "exit-time", fmt.Sprintf("the process ended %d ms (simulated) after SIGINT", dt))
 		}
@@ -891,6 +896,32 @@ func (w *wbuild) checkBuild(res *InvResult, req BuildReq, opts InvOpts, cm *cach
 			}
 		}
 		return
+	}
+	if opts.FailFast && anyFail && !faulted && !signalled {
+		// Simulated time only advances when every task is blocked, so the walk is cancelled at
+		// the very simulated instant the first failure happens, whatever the schedule: a command
+		// forked at a later instant, or one that keeps running and completes after it, was not
+		// stopped by fail-fast.
+		tF := int64(-1)
+		for _, e := range res.Events {
+			if e.Kind == "cmd" && status[e.Label] == "failed" && e.EndMS > 0 || e.Kind == "cmd" && status[e.Label] == "failed" && e.End > 0 {
+				if tF < 0 || e.EndMS < tF {
+					tF = e.EndMS
+				}
+			}
+		}
+		if tF >= 0 {
+			for _, e := range res.Events {
+				if e.Kind != "cmd" {
+					continue
+				}
+				if e.StartMS > tF {
+					report("C05", "target-started-after-first-failure", "fail-fast", fmt.Sprintf("fail-fast: the first failure happened at simulated t=%dms, but the command of %s was started at t=%dms", tF, e.Label, e.StartMS))
+				} else if e.End > 0 && !e.Killed && e.EndMS > tF && e.Exit == 0 && status[e.Label] != "failed" {
+					report("C05", "running-target-not-cancelled", "fail-fast", fmt.Sprintf("fail-fast: the first failure happened at simulated t=%dms, but the command of %s (started t=%dms) kept running and completed at t=%dms", tF, e.Label, e.StartMS, e.EndMS))
+				}
+			}
+		}
 	}
 	if opts.FailFast && anyFail {
 		// anything may have been cancelled: targets the model expected to run may not have
